@@ -50,6 +50,9 @@ RunStatus read_dump(const Plan &p, const std::string &path, Dump &d, bool with_c
 RunStatus mrb_driver(const Plan &p, std::vector<std::string> &errors, uint64_t *n_ok, uint64_t *n_fail, uint64_t *n_pop);
 // copy
 RunStatus copy_file(const std::string &src, const std::string &dst, int *rc);
+// C10: a seeded sequence of n public raw-layer calls (include/jls/raw.h) - a reading instance on path_r, a writing instance on path_w - with valid
+// pointers and buffers of exactly the size the call is told; the first n calls of one PRNG stream, so that a shorter run is a prefix of a longer one
+RunStatus raw_driver(const Plan &p, int n_ops, const std::string &path_r, const std::string &path_w, uint64_t *n_ok, uint64_t *n_err);
 // build the model from the ops that were accepted (rc == 0)
 void build_model(const Plan &p, const std::vector<OpRec> &rec, Model &m);
 // canonical serialisation helpers used by oracles
